@@ -1,5 +1,6 @@
 import NgVerif.Proofs.CsegMain
 import NgVerif.Proofs.CsegList
+import NgVerif.Proofs.CsegOwn
 /-
   C02 — compressed_segmentation output conforms to the Neuroglancer format.
 
@@ -32,6 +33,16 @@ theorem spec_decoder_recovers_the_array
     (file : Bytes) (h : encode itemsize s bk d = some file) :
     specDecode itemsize s bk file = some d :=
   specDecode_encode itemsize hi s bk d hbx hby hbz hvals hd file h
+
+/-- The package's OWN decoder (`decode_chunk_into`) recovers the array from its encoder's output:
+    `decode (encode a) = a` for every chunk shape, block size, label width and label array. -/
+theorem own_decoder_round_trip
+    (itemsize : Nat) (hi : itemsize = 4 ∨ itemsize = 8) (s : Shape) (bk : Blk3) (d : List Nat)
+    (hbx : 0 < bk.bx) (hby : 0 < bk.by') (hbz : 0 < bk.bz)
+    (hvals : ∀ v ∈ d, v < 2 ^ (8 * itemsize)) (hd : d.length = s.c * s.z * s.y * s.x)
+    (file : Bytes) (h : encode itemsize s bk d = some file) :
+    implDecode itemsize s bk file = .ok d :=
+  implDecode_encode itemsize hi s bk d hbx hby hbz hvals hd file h
 
 /-- non-vacuity: a 2-channel 3×2×3 chunk with a non-cubic block is encoded (the hypotheses of the
     theorem are satisfiable, including a block that needs padding and a shared look-up table) -/
